@@ -22,6 +22,8 @@ import CelloProofs.Lemmas.RBHeight
 import CelloProofs.Lemmas.RBCheck
 import CelloProofs.Lemmas.RBArgs
 import CelloProofs.Lemmas.RBOrder
+import CelloProofs.Lemmas.RBCmp
+import CelloProofs.Lemmas.RBWord
 
 namespace Cello.RB
 open Std
@@ -73,6 +75,45 @@ theorem C03_descent_current_source : DescentOk := by
 theorem C03_assign_current_source :
     CelloGen.Tree.assignGuards = ["self is obj"] ∧ CelloGen.Tree.assignGuardsSelf = true :=
   ⟨rfl, rfl⟩
+
+/-- **The parent-and-colour word of the source as it is now.** With the expressions `Tree_Get_Parent`, `Tree_Get_Color`,
+    `Tree_Set_Parent` and `Tree_Set_Color` compute today (read from src/Tree.c on every run as terms over `ptr`:
+    `ptr & (~1)`, `ptr & 1`, `ptr | 1` / `ptr` under the test `Tree_Is_Red(m, node)`, `ptr | 1` / `ptr` under `col`), the third
+    word of a node is a PAIR (parent address, colour) for every even address: reading gives back what was stored,
+    `Tree_Set_Parent` keeps the colour, `Tree_Set_Color` keeps the parent, NULL is black, and a node fresh from `Tree_Alloc`
+    (`calloc`, `Tree_Set_Parent(NULL)`, `Tree_Set_Red`) is a red node without parent. This is what lets the zipper model keep
+    colours (`Frame.c`) and parents (the `Path`) apart. -/
+theorem C03_parent_word_current_source :
+    PWordLaws getParentW getColorW setParentW setColorW ∧ CelloGen.Tree.getColorNullIsBlack = true ∧
+      allocW = encodeW 0 .R := by
+  refine ⟨⟨?_, ?_, ?_, ?_⟩, rfl, by decide⟩
+  · intro a c h
+    cases c <;> simp [getParentW, getParentWith, CelloGen.Tree.getParentExpr, pwEval, encodeW] <;> omega
+  · intro a c h
+    cases c <;> simp [getColorW, getColorWith, CelloGen.Tree.getColorExpr, pwEval, encodeW] <;> omega
+  · intro a c p h hp
+    have h1 : (a + 1) % 2 = 1 := by omega
+    cases c <;>
+      simp [setParentW, setParentWith, getColorWith, CelloGen.Tree.getColorExpr, CelloGen.Tree.setParentTestRed,
+        CelloGen.Tree.setParentThen, CelloGen.Tree.setParentElse, pwEval, encodeW, h, h1, hp]
+  · intro a c c' h
+    cases c <;> cases c' <;>
+      simp [setColorW, setColorWith, getParentWith, CelloGen.Tree.getParentExpr, CelloGen.Tree.setColorTestCol,
+        CelloGen.Tree.setColorThen, CelloGen.Tree.setColorElse, pwEval, encodeW] <;> omega
+
+/-- the link table of every tree — parent addresses and colours written into the words by the accessors in the order the code
+    uses them and read back through them — is the model's own table: nothing is lost in the packed word -/
+theorem C03_link_table_faithful (t : T α β) : linkTable t = (nodesPre t 0 0).1 :=
+  linkTable_faithful C03_parent_word_current_source.1 t
+
+/-- why `Tree_Set_Parent` tests the colour: with a plain store of `ptr` on both branches a red node that is given a new parent
+    (every rotation does that) reads back BLACK; and with `Tree_Get_Parent` returning the word unmasked the parent of a red
+    node reads back as an odd address -/
+theorem C03_parent_word_variants_refuted :
+    setParentWith CelloGen.Tree.getColorExpr true .arg .arg (encodeW 32 .R) 64 = encodeW 64 .B ∧
+    getParentWith .arg (encodeW 32 .R) = 33 ∧
+    (setParentW (encodeW 32 .R) 64 = encodeW 64 .R ∧ getParentW (encodeW 32 .R) = 32) := by
+  decide
 
 /-- **The code the model mirrors is the code in /repo now**: the statements of the `while (true)` bodies of `Tree_Set_Fix`
     and `Tree_Rem_Fix` — every case as (condition chain, actions) — and the bodies of the other functions the model follows
@@ -473,5 +514,88 @@ theorem C03_self_assign_old_refuted :
       (Tree.assignSelf Key.cmp m).map (·.1) = some m := by
   refine ⟨⟨.node .B .nil (.i 2) (.i 20) (.node .R .nil (.i 1) (.i 10) .nil), 2, 8, 8⟩, (validB_iff _).mp (by decide), by decide,
     by decide, rfl⟩
+
+/-! ### third layer: `Tree_Cmp` and `Tree_Hash` (Cello/RBTreeCmp.lean) — `cmp(t, s)`, `eq(t, s)`, `hash(t)` on Trees -/
+
+/-- **`Tree_Cmp` is the lexicographic comparison of the two maps.** For two valid trees — of whatever shapes and colourings
+    their histories left them in — the lock-step walk of `Tree_Cmp` (`Tree_Iter_Init` / `Tree_Iter_Next` on both sides, the key
+    type's `cmp` on the two cursors, then the values fetched again by `Tree_Get(self, item0)` / `get(obj, item1)`) reaches a
+    result within its fuel, raises no KeyError, dereferences no NULL, and returns the comparison of the two in-order sequences
+    binding by binding (keys first, then values; a proper prefix is smaller). -/
+theorem C03_tree_cmp_is_lexicographic [Packed α] [Packed β] (cmp : α → α → Ordering) [TransCmp cmp]
+    (vcmp : β → β → Ordering) (m s : Tree α β) (hm : Valid cmp m) (hs : Valid cmp s) :
+    m.cmpTree cmp vcmp s = some (.ok (Spec.cmpList cmp vcmp m.abs s.abs)) :=
+  cmpTree_eq C03_current_source vcmp m s hm hs
+
+/-- `cmp(t, s)` returns 0 (`eq(t, s)` holds) exactly when both maps have the same number of bindings and, in key order, keys
+    that compare equal with values that compare equal -/
+theorem C03_tree_cmp_zero_iff_same_map [Packed α] [Packed β] (cmp : α → α → Ordering) [TransCmp cmp]
+    (vcmp : β → β → Ordering) (m s : Tree α β) (hm : Valid cmp m) (hs : Valid cmp s) :
+    m.cmpTree cmp vcmp s = some (.ok .eq) ↔
+      m.abs.length = s.abs.length ∧ ∀ p ∈ m.abs.zip s.abs, cmp p.1.1 p.2.1 = .eq ∧ vcmp p.1.2 p.2.2 = .eq := by
+  rw [C03_tree_cmp_is_lexicographic cmp vcmp m s hm hs, ← Spec.cmpList_eq_iff]
+  constructor
+  · intro h; injection h with h; injection h
+  · intro h; rw [h]
+
+/-- **`Tree_Hash` does not depend on the shape.** It is defined on every tree whose `nitems` is its node count and is the xor of
+    `hash(key) ^ hash(value)` over the in-order sequence; two valid trees that hold the same map — reached by different
+    histories, hence in general of different shapes — have the same hash, and `cmp` of them is 0 when every key and value
+    compares equal to itself. -/
+theorem C03_tree_hash_shape_independent [Packed α] [Packed β] (cmp : α → α → Ordering) [TransCmp cmp]
+    (vcmp : β → β → Ordering) (hk : α → UInt64) (hv : β → UInt64) (m s : Tree α β) (hm : Valid cmp m) (hs : Valid cmp s)
+    (hsame : m.abs = s.abs) (hrefl : ∀ v, vcmp v v = .eq) :
+    m.hashTree hk hv = some (Spec.hashList hk hv m.abs) ∧ m.hashTree hk hv = s.hashTree hk hv ∧
+      m.cmpTree cmp vcmp s = some (.ok .eq) := by
+  refine ⟨hashTree_eq hk hv m hm.count, ?_, ?_⟩
+  · rw [hashTree_eq hk hv m hm.count, hashTree_eq hk hv s hs.count]; exact congrArg _ (congrArg _ hsame)
+  · rw [C03_tree_cmp_is_lexicographic cmp vcmp m s hm hs, ← hsame,
+      Spec.cmpList_self vcmp m.abs (fun e _ => ReflCmp.compare_self) (fun e _ => hrefl e.2)]
+
+/-- **Histories with `cmp` and `hash`.** Every well-typed history over the operations of both earlier layers plus `cmp(t, s)`
+    and `hash(t)` on Trees, starting from nothing, for every lawful key comparison, any value comparison and any hash functions
+    of the element types: every operation is defined, the observations are those of the store of strictly sorted association
+    lists (`cmp` = lexicographic comparison of the two lists, `hash` = xor-fold), and every tree stays a valid red-black tree. -/
+theorem C03_cmp_hash_refine [Packed α] [Packed β] [LawfulPacked α] [LawfulPacked β]
+    (cmp : α → α → Ordering) [TransCmp cmp] (E : Elem α β) (ops : List (BOp α β))
+    (hty : WellTypedB [] ops) :
+    ∃ st os, runB CelloGen.Tree.stringAssignGuardsSelf cmp E [] ops = some (st, os) ∧
+      os = (Spec.runB cmp E [] ops).2 ∧
+      absStore st = (Spec.runB cmp E [] ops).1 ∧
+      AllValid cmp st := by
+  rw [C03_string_assign_current_source.2]
+  obtain ⟨st, os, h1, h2, h3⟩ := runB_refines (cmp := cmp) C03_current_source E ops [] AllValid.nil hty
+  have h2' : Spec.runB cmp E [] ops = (absStore st, os) := h2
+  exact ⟨st, os, h1, by rw [h2'], by rw [h2'], h3⟩
+
+/-- the third layer for the comparisons of the op files: `Key.cmp` on keys, `Val.cmpC` on values (`memcmp` for the plain
+    structs), any `hash_data` -/
+theorem C03_op_files_cmp_hash (hashData : List UInt8 → UInt64) (ops : List (BOp Key Val))
+    (hty : WellTypedA [] (ops.filterMap BOp.aOp)) :
+    let E : Elem Key Val := ⟨Val.cmpC, Key.hashC hashData, Key.hashC hashData⟩
+    ∃ st os, runB CelloGen.Tree.stringAssignGuardsSelf Key.cmp E [] ops = some (st, os) ∧
+      os = (Spec.runB Key.cmp E [] ops).2 ∧ AllValid Key.cmp st :=
+  let ⟨st, os, h1, h2, _, h4⟩ := C03_cmp_hash_refine Key.cmp _ ops (wellTypedB_of_A [] ops hty)
+  ⟨st, os, h1, h2, h4⟩
+
+/-- non-vacuity: two trees built in opposite insertion orders (different shapes) compare equal and hash alike; after one
+    value changes the comparison follows the values (`memcmp` on little-endian words: 256 < 1 as byte strings), a tree that is
+    a proper prefix is smaller, and the comparison of a tree with itself is 0 -/
+example :
+    let E : Elem Key Val := ⟨Val.cmpC, Key.hashC (fun b => UInt64.ofNat b.length), Key.hashC (fun b => UInt64.ofNat b.length)⟩
+    let ops : List (BOp Key Val) :=
+      [.a (.base (.new 0 8 24 [(.i 1, .w 1 0 [0]), (.i 2, .w 2 0 [0]), (.i 3, .w 3 0 [0])])),
+       .a (.base (.new 1 8 24 [(.i 3, .w 3 0 [0]), (.i 2, .w 2 0 [0]), (.i 1, .w 1 0 [0])])),
+       .cmp 0 1, .hash 0, .hash 1,
+       .a (.base (.set 1 (.i 2) (.w 256 0 [0]))), .cmp 0 1, .cmp 1 0,
+       .a (.base (.rem 1 (.i 1))), .a (.base (.set 1 (.i 2) (.w 2 0 [0]))), .cmp 1 0, .cmp 0 0, .cmp 0 7, .hash 7]
+    WellTypedA [] (ops.filterMap BOp.aOp) ∧
+    ((runB CelloGen.Tree.stringAssignGuardsSelf Key.cmp E [] ops).map (fun r => r.2.map (fun o =>
+        match o with | .ord c => some c | _ => none))) = some
+      [none, none, some .eq, none, none, none, some .gt, some .lt, none, none, some .lt, some .eq, none, none] ∧
+    ((runB CelloGen.Tree.stringAssignGuardsSelf Key.cmp E [] ops).map (fun r => r.2.map (fun o =>
+        match o with | .word h => some h.toNat | _ => none))) = some
+      [none, none, none, some 24, some 24, none, none, none, none, none, none, none, none, none] := by
+  refine ⟨wellTypedAB_sound _ _ (by decide), by decide +kernel, by decide +kernel⟩
 
 end Cello.RB
